@@ -462,11 +462,23 @@ structure GenFunds where
 def exportGenesis (s : State) : List GenFunds :=
   s.recs.map fun e => ⟨e.1.1, e.2.unacc, e.2.coins, e.2.declined⟩
 
-/-- genesis.go:27-32: `SetQuarantineRecord(toAddr, NewQuarantineRecord(unaccepted, coins, declined))`
-for every exported entry, in order -/
+/-- genesis.go BEFORE fix b5c01b2ec: `SetQuarantineRecord(toAddr, NewQuarantineRecord(unaccepted,
+coins, declined))` for every exported entry, in order — an entry overwrote an earlier one with
+the same receiver and unaccepted senders. Kept for the historical observation theorems. -/
+def initGenesisFundsPreFix (s : State) : List GenFunds → State
+  | [] => s
+  | g :: rest => initGenesisFundsPreFix (setQuarantineRecord s g.to ⟨g.unacc, [], g.coins, g.declined⟩) rest
+
+/-- genesis.go (current, after b5c01b2ec): entries of one import that share receiver and
+unaccepted senders are combined (coins added, declined or-ed) instead of overwriting. The
+quarantine record store is empty when the import starts, so "already imported" = "in the store". -/
 def initGenesisFunds (s : State) : List GenFunds → State
   | [] => s
-  | g :: rest => initGenesisFunds (setQuarantineRecord s g.to ⟨g.unacc, [], g.coins, g.declined⟩) rest
+  | g :: rest =>
+    let r : Record := match getQuarantineRecord s g.to g.unacc with
+      | some prev => { prev with coins := Coins.add prev.coins g.coins, declined := prev.declined || g.declined }
+      | none => ⟨g.unacc, [], g.coins, g.declined⟩
+    initGenesisFunds (setQuarantineRecord s g.to r) rest
 
 def genTotal (l : List GenFunds) (d : Denom) : Int :=
   match l with
@@ -475,12 +487,21 @@ def genTotal (l : List GenFunds) (d : Denom) : Int :=
 
 /-- genesis.go:12 `InitGenesis` into an empty quarantine store: panics when the holder does not
 cover the total of the imported funds. `order` is the order of the entries in the genesis file. -/
-def regenesis (s : State) (order : List GenFunds → List GenFunds) : Except Err State :=
+def regenesisWith (initFunds : State → List GenFunds → State) (s : State)
+    (order : List GenFunds → List GenFunds) : Except Err State :=
   let funds := order (exportGenesis s)
-  let s' := initGenesisFunds { s with recs := [], index := [] } funds
+  let s' := initFunds { s with recs := [], index := [] } funds
   if (funds.flatMap fun g => Coins.denoms g.coins).all fun d =>
       decide (genTotal funds d ≤ Ledger.bal s.bank s.holder d)
   then .ok s' else .error .panic
+
+/-- current code -/
+def regenesis (s : State) (order : List GenFunds → List GenFunds) : Except Err State :=
+  regenesisWith initGenesisFunds s order
+
+/-- before fix b5c01b2ec (historical) -/
+def regenesisPreFix (s : State) (order : List GenFunds → List GenFunds) : Except Err State :=
+  regenesisWith initGenesisFundsPreFix s order
 
 /-- fresh chain: nothing quarantined, given balances. -/
 def init (holder : Addr) (restricted : List Denom) (xfer : List Addr) (bank : Ledger) : State :=
